@@ -94,10 +94,8 @@ func genCase(r *hx.Rand, big bool) *Case {
 	// in single-column runs (one file, no -col, no duplicate path): two compared cells with a NaN
 	// make go-moremath's U test loop forever (reported, see notes/C14.md)
 	specialsMode := r.Chance(1, 6)
-	nanMode := !holesMode && !collideMode && !clearMode && r.Chance(1, 8)
+	nanMode := specialsMode && r.Chance(1, 2)
 	if nanMode {
-		specialsMode = true
-		nfiles = 1
 		c.tag("nan")
 	}
 	// "ties" mode: differently spelled but numerically equal values in a non-last @num field
@@ -160,6 +158,7 @@ func genCase(r *hx.Rand, big bool) *Case {
 	// with an occasional per-file shift
 	mag := map[string]float64{}
 	hasZero := false
+	_ = hasZero
 	for _, n := range names {
 		for _, u := range units {
 			m := hx.Pick(r, magPool)
@@ -284,9 +283,7 @@ func genCase(r *hx.Rand, big bool) *Case {
 							if nanMode {
 								pool = append(pool, "NaN", "NaN", "NaN")
 							}
-							if !hasZero {
-								pool = append(pool, "-0") // never next to a +0 (see notes/C15.md)
-							}
+							pool = append(pool, "-0", "0") // both zeros may share a cell (F27)
 							vs = hx.Pick(r, pool)
 							c.tag("specials")
 						}
@@ -325,18 +322,16 @@ func genCase(r *hx.Rand, big bool) *Case {
 			c.Args = append(c.Args, n)
 		}
 	}
-	if !nanMode && r.Chance(1, 8) {
+	if r.Chance(1, 8) {
 		c.Args = append(c.Args, c.Files[r.Intn(len(c.Files))].Name)
 		c.tag("duppath")
 	}
-	if !nanMode && r.Chance(1, 20) {
+	if r.Chance(1, 20) {
 		c.Args = append(c.Args, "L="+c.Files[0].Name)
 		c.tag("duplabel")
 	}
 	// flags
-	if nanMode {
-		c.Flags = append(c.Flags, hx.Pick(r, [][]string{nil, {"-row", ".name"}, {"-row", ".fullname@alpha"}, {"-table", "goos"}, {"-confidence", "0.5"}})...)
-	} else if clearMode {
+	if clearMode {
 		c.tag("cfgclear")
 		c.Flags = append(c.Flags, hx.Pick(r, [][]string{nil, {"-col", clearKey}, {"-col", clearKey, "-ignore", ".file"}, {"-row", clearKey + ",.fullname"}, {"-table", clearKey},
 			{"-table", "goos," + clearKey}, {"-col", clearKey + ",.file"}})...)
@@ -440,6 +435,13 @@ func corpusCases() []*Case {
 		mk(nil, "BenchmarkA 1 5 widgets\nBenchmarkA 1 3 widgets\nBenchmarkA 1 NaN widgets\nBenchmarkB 1 +Inf widgets\nBenchmarkB 1 2 widgets\nBenchmarkB 1 NaN widgets\nBenchmarkB 1 7 widgets\nBenchmarkC 1 1 widgets\nBenchmarkC 1 NaN widgets\nBenchmarkC 1 8 widgets\nBenchmarkC 1 6 widgets\nBenchmarkC 1 2 widgets\n"),
 		mk([]string{"-row", ".name"}, "BenchmarkA/x=1 1 NaN widgets\nBenchmarkA/x=2 1 4 widgets\nBenchmarkA/x=3 1 -Inf widgets\nBenchmarkA/x=4 1 9 widgets\nBenchmarkB 1 -0 widgets\nBenchmarkB 1 1 widgets\nBenchmarkB 1 NaN widgets\nBenchmarkB 1 5 widgets\nBenchmarkB 1 3 widgets\n"),
 		mk(nil, "BenchmarkA 1 +Inf widgets\nBenchmarkA 1 3 widgets\nBenchmarkA 1 4 widgets\nBenchmarkB 1 2 widgets\n", "BenchmarkA 1 -Inf widgets\nBenchmarkA 1 4 widgets\nBenchmarkA 1 -0 widgets\nBenchmarkB 1 Inf widgets\n"),
+		// F28 witness: compared cells containing NaN (hung in go-moremath's U test)
+		mk(nil, "BenchmarkA 1 5 widgets\nBenchmarkA 1 3 widgets\nBenchmarkA 1 NaN widgets\n", "BenchmarkA 1 NaN widgets\nBenchmarkA 1 4 widgets\nBenchmarkA 1 9 widgets\n"),
+		mk(nil, "BenchmarkA 1 5 widgets\nBenchmarkA 1 3 widgets\nBenchmarkA 1 NaN widgets\nBenchmarkB 1 2 widgets\n", "BenchmarkA 1 1 widgets\nBenchmarkA 1 4 widgets\nBenchmarkA 1 9 widgets\nBenchmarkB 1 NaN widgets\n"),
+		// F27 witness: +0 and -0 in one cell under assume=exact, both line orders
+		mk(nil, "Unit widgets assume=exact\nBenchmarkA 1 0 widgets\nBenchmarkA 1 -0 widgets\n"),
+		mk(nil, "Unit widgets assume=exact\nBenchmarkA 1 -0 widgets\nBenchmarkA 1 0 widgets\n"),
+		mk(nil, "BenchmarkA 1 0 widgets\nBenchmarkA 1 -0 widgets\nBenchmarkA 1 0 widgets\n", "BenchmarkA 1 -0 widgets\nBenchmarkA 1 0 widgets\n"),
 		// exact assumption
 		mk([]string{"-col", "note"}, "Unit text-bytes assume=exact\nnote: before\n\nBenchmarkSize 1 100 text-bytes\nBenchmarkN 1 100 text-bytes\nBenchmarkN 1 101 text-bytes\n\nnote: after\n\nBenchmarkSize 1 105 text-bytes\nBenchmarkN 1 101 text-bytes\n"),
 	}
